@@ -326,4 +326,305 @@ Section Rules.
     - cbn [map] in H. inversion H as [|o a0 l l' Ho Hl]; subst.
       destruct Hd' as [Hd' | Hd']; [subst; eapply ti_def_ok; eauto | eapply IH; eauto].
   Qed.
+
+  (** ** what the rules observe of a type the request may see (or that is not registered at all) *)
+  Definition okname (n : name) : Prop := alive n = true \/ raw_type S n = None.
+
+  Lemma raw_body_ok n : okname n -> raw_body E n = option_map (verase_body alive F) (raw_body S n).
+  Proof.
+    intros [V | N]; [apply (raw_body_erase S F Hok n V)|].
+    unfold raw_body. rewrite (raw_type_erase S F Hok n), N. reflexivity.
+  Qed.
+
+  Lemma string_okname : okname n_String.
+  Proof.
+    pose proof (string_rule S Hok) as H. unfold req_of in H. unfold okname, vvisible.
+    destruct (raw_type S n_String) as [d|]; [|right; reflexivity].
+    destruct (t_req d); [left; reflexivity | discriminate].
+  Qed.
+
+  Lemma is_composite_name_erase n : okname n -> is_composite_name E n = is_composite_name S n.
+  Proof.
+    intro V. unfold is_composite_name. rewrite (raw_body_ok n V).
+    destruct (raw_body S n) as [[| | | | |]|]; reflexivity.
+  Qed.
+
+  Lemma is_object_name_erase n : okname n -> is_object_name E n = is_object_name S n.
+  Proof.
+    intro V. unfold is_object_name. rewrite (raw_body_ok n V).
+    destruct (raw_body S n) as [[| | | | |]|]; reflexivity.
+  Qed.
+
+  Lemma is_leaf_sty_erase t : (forall n, t = StNamed n -> okname n) -> is_leaf_sty E t = is_leaf_sty S t.
+  Proof.
+    intro V. destruct t as [n | t' | t']; try reflexivity. unfold is_leaf_sty.
+    rewrite (raw_body_ok n (V n eq_refl)). destruct (raw_body S n) as [[| | | | |]|]; reflexivity.
+  Qed.
+
+  (** ** the trees of an AST are self-describing: beneath a selection-set node lies the tree of
+      that selection set *)
+  Definition no_ss (t : tree) : Prop := forall ss, ~ In (NSelSet ss) (tree_nodes t).
+  Definition closed (t : tree) : Prop :=
+    forall ss, In (NSelSet ss) (tree_nodes t) -> incl (tree_nodes (tree_ss ss)) (tree_nodes t).
+
+  Lemma no_ss_T r cs : (forall ss, r <> NSelSet ss) -> Forall no_ss cs -> no_ss (T r cs).
+  Proof.
+    intros Hr Hcs ss [H | H]; [apply (Hr ss); exact H|].
+    apply in_flat_map in H as [c [Hc H]]. rewrite Forall_forall in Hcs. apply (Hcs c Hc ss H).
+  Qed.
+  Lemma no_ss_closed t : no_ss t -> closed t.
+  Proof. intros H ss Hin. exfalso. apply (H ss Hin). Qed.
+  Lemma closed_T r cs : (forall ss, r <> NSelSet ss) -> Forall closed cs -> closed (T r cs).
+  Proof.
+    intros Hr Hcs ss [H | H]; [exfalso; apply (Hr ss); exact H|].
+    apply in_flat_map in H as [c [Hc H]]. rewrite Forall_forall in Hcs.
+    intros n Hn. right. apply in_flat_map. exists c. split; [exact Hc | apply (Hcs c Hc ss H n Hn)].
+  Qed.
+
+  Lemma Forall_map_gen {A} (Q : tree -> Prop) (f : A -> tree) l : (forall x, In x l -> Q (f x)) -> Forall Q (map f l).
+  Proof. intro H. apply Forall_forall. intros t Ht. apply in_map_iff in Ht as [x [Ex Hx]]. subst. auto. Qed.
+  Lemma opt_tree_gen {A} (Q : tree -> Prop) (f : A -> tree) (o : option A) : (forall x, Q (f x)) -> Forall Q (opt_tree f o).
+  Proof. destruct o as [x|]; intro H; [constructor; [apply H | constructor] | constructor]. Qed.
+
+  Lemma no_ss_name np : no_ss (name_tree np).
+  Proof. apply no_ss_T; [discriminate | constructor]. Qed.
+
+  Lemma no_ss_value v : no_ss (tree_value v).
+  Proof.
+    induction v using value_ind'; cbn [tree_value]; apply no_ss_T; try discriminate;
+      try (repeat constructor; apply no_ss_name).
+    - apply Forall_map_gen. intros x Hx. rewrite Forall_forall in H. auto.
+    - apply Forall_map_gen. intros [[n np] x] Hx. rewrite Forall_forall in H. specialize (H _ Hx).
+      apply no_ss_T; [discriminate|]. constructor; [apply no_ss_name | constructor; [exact H | constructor]].
+  Qed.
+
+  Lemma no_ss_arg a : no_ss (tree_arg a).
+  Proof. apply no_ss_T; [discriminate|]. constructor; [apply no_ss_name | constructor; [apply no_ss_value | constructor]]. Qed.
+  Lemma no_ss_dir d : no_ss (tree_dir d).
+  Proof. apply no_ss_T; [discriminate|]. constructor; [apply no_ss_name|]. apply Forall_map_gen. intros; apply no_ss_arg. Qed.
+  Lemma no_ss_ty t : no_ss (tree_ty t).
+  Proof. induction t; cbn [tree_ty]; apply no_ss_T; try discriminate; constructor; auto using no_ss_name. Qed.
+  Lemma no_ss_vardef v : no_ss (tree_vardef v).
+  Proof.
+    apply no_ss_T; [discriminate|]. apply Forall_app. split.
+    - constructor; [apply no_ss_value | constructor; [apply no_ss_ty | constructor]].
+    - apply opt_tree_gen. apply no_ss_value.
+  Qed.
+
+  Lemma closed_sel_ss : (forall s, closed (tree_sel s)) /\ (forall ss, closed (tree_ss ss)).
+  Proof.
+    apply sel_ss_ind.
+    - intros a al n np args dirs sub IH. cbn [tree_sel]. apply closed_T; [discriminate|].
+      apply Forall_app. split; [apply opt_tree_gen; intro; apply no_ss_closed, no_ss_name|].
+      apply Forall_app. split; [constructor; [apply no_ss_closed, no_ss_name | constructor]|].
+      apply Forall_app. split; [apply Forall_map_gen; intros; apply no_ss_closed, no_ss_arg|].
+      apply Forall_app. split; [apply Forall_map_gen; intros; apply no_ss_closed, no_ss_dir|].
+      destruct sub as [ss|]; [constructor; [apply (IH ss eq_refl) | constructor] | constructor].
+    - intros n np dirs e. cbn [tree_sel]. apply closed_T; [discriminate|].
+      constructor; [apply no_ss_closed, no_ss_name | apply Forall_map_gen; intros; apply no_ss_closed, no_ss_dir].
+    - intros cond dirs sub e IH. cbn [tree_sel]. apply closed_T; [discriminate|].
+      apply Forall_app. split.
+      + apply opt_tree_gen. intro x. apply no_ss_closed. unfold tree_named_type.
+        apply no_ss_T; [discriminate|]. constructor; [apply no_ss_name | constructor].
+      + apply Forall_app. split; [apply Forall_map_gen; intros; apply no_ss_closed, no_ss_dir|].
+        constructor; [exact IH | constructor].
+    - intros a sels p IH. intros ss Hin. cbn [tree_ss tree_nodes] in Hin. destruct Hin as [Hin | Hin].
+      + inversion Hin; subst ss. apply incl_refl.
+      + apply in_flat_map in Hin as [c [Hc Hin]]. apply in_map_iff in Hc as [s [Es Hs]]. subst c.
+        rewrite Forall_forall in IH. intros n Hn. cbn [tree_ss tree_nodes]. right.
+        apply in_flat_map. exists (tree_sel s). split; [apply in_map; exact Hs | apply (IH s Hs ss Hin n Hn)].
+  Qed.
+
+  Lemma closed_def d : closed (tree_def d).
+  Proof.
+    destruct d as [ot n vars dirs sub | kw n np cond dirs sub]; cbn [tree_def]; apply closed_T; try discriminate.
+    - apply Forall_app. split; [apply opt_tree_gen; intro; apply no_ss_closed, no_ss_T; [discriminate | constructor]|].
+      apply Forall_app. split; [apply opt_tree_gen; intro; apply no_ss_closed, no_ss_name|].
+      apply Forall_app. split; [apply Forall_map_gen; intros; apply no_ss_closed, no_ss_vardef|].
+      apply Forall_app. split; [apply Forall_map_gen; intros; apply no_ss_closed, no_ss_dir|].
+      constructor; [apply (proj2 closed_sel_ss) | constructor].
+    - constructor; [apply no_ss_closed, no_ss_name|].
+      apply Forall_app. split; [apply Forall_map_gen; intros; apply no_ss_closed, no_ss_dir|].
+      constructor; [apply (proj2 closed_sel_ss) | constructor].
+  Qed.
+
+  Lemma closed_doc A : closed (tree_doc A).
+  Proof. unfold tree_doc. apply closed_T; [discriminate|]. apply Forall_map_gen. intros; apply closed_def. Qed.
+
+  (** the node predicate the rules need: the slot is visible, and beneath a selection set all is *)
+  Definition wa_node' (n : node) : Prop :=
+    wa_node n /\ match n with NSelSet ss => ok (tree_ss ss) | _ => True end.
+
+  Lemma ok_strengthen t : closed t -> ok t -> nodes_ok wa_node' t.
+  Proof.
+    intros C H n Hn. split; [apply H; exact Hn|].
+    destruct n; try exact I. intros m Hm. apply H. apply (C s Hn m Hm).
+  Qed.
+
+  Lemma frag_last_In A n d : frag_last A n = Some d -> In d A.
+  Proof.
+    induction A as [|d0 r IH]; cbn [frag_last]; [discriminate|].
+    destruct (frag_last r n) as [x|]; [intro H; inversion H; subst; right; apply IH; reflexivity|].
+    destruct d0; [discriminate|]. destruct (name_eqb n n0); [|discriminate].
+    intro H; inversion H; subst. left; reflexivity.
+  Qed.
+
+  Lemma ok_doc_def A d : ok (tree_doc A) -> In d A -> ok (tree_def d).
+  Proof.
+    intros H Hd. unfold tree_doc in H. apply nodes_ok_T in H as [_ H]. rewrite Forall_forall in H.
+    apply H. apply in_map. exact Hd.
+  Qed.
+
+  Lemma ok_def_sub d : ok (tree_def d) -> ok (tree_ss (def_sub d)).
+  Proof.
+    intro H. destruct d as [ot n vars dirs sub | kw n np cond dirs sub]; cbn [tree_def def_sub] in *;
+      apply nodes_ok_T in H as [_ H]; rewrite Forall_forall in H; apply H.
+    - apply in_or_app; right. apply in_or_app; right. apply in_or_app; right. apply in_or_app; right. left; reflexivity.
+    - right. apply in_or_app; right. left; reflexivity.
+  Qed.
+
+  (** ** validateFields, first pass: field exists on the scope, leaf / composite subselection *)
+  Lemma raw_body_nodup tn b : raw_body S tn = Some b -> vnodup (map fst (fields_of_body b)) = true.
+  Proof.
+    unfold raw_body. destruct (raw_type S tn) as [d|] eqn:L; [|discriminate].
+    intro H; inversion H; subst b. apply (fields_nodup S Hok tn d L).
+  Qed.
+
+  Definition stack_ok (st : rst) : Prop := Forall vsc (r_stack st).
+
+  Lemma fields_enter_erase st n : stack_ok st -> wa_node n -> fields_enter E G st n = fields_enter S F st n.
+  Proof.
+    intros Hst Hn. destruct n as [| | | | | | | ss | s | | |]; try reflexivity.
+    destruct s as [a al fname np args dirs sub | |]; try reflexivity.
+    cbn [wa_node] in Hn. unfold fields_enter.
+    assert (Hshould : match a with Some def => is_composite_name E (unwrapped (f_type def)) | None => false end
+                      = match a with Some def => is_composite_name S (unwrapped (f_type def)) | None => false end).
+    { destruct a as [def|]; [|reflexivity]. apply is_composite_name_erase. left. apply (proj1 Hn). }
+    rewrite Hshould. clear Hshould.
+    unfold stack_ok in Hst.
+    destruct a as [def|]; destruct (negb (name_eqb fname n_typename)); cbn [r_stack add_errs]; try reflexivity;
+      (destruct (r_stack st) as [|[tn|] rest] eqn:RS; try reflexivity;
+       assert (V : alive tn = true) by (inversion Hst; assumption);
+       rewrite (raw_body_ok tn (or_introl V));
+       destruct (raw_body S tn) as [[k | vals | ifs | fields ifs | fields | ms]|] eqn:RB; cbn [option_map verase_body]; try reflexivity;
+       pose proof (raw_body_nodup tn _ RB) as Hnd; cbn [fields_of_body] in Hnd;
+       rewrite (get_field_erase F G HFG fields fname Hnd); reflexivity).
+  Qed.
+
+  Lemma fields_enter_stack_eq st n :
+    r_stack (fst (fields_enter S F st n)) = (match n with NSelSet ss => ss_ann ss | _ => None end) :: r_stack st.
+  Proof.
+    destruct n as [| | | | | | | ss | s | | |]; try reflexivity.
+    destruct s as [a al fname np args dirs sub | |]; try reflexivity.
+    unfold fields_enter.
+    match goal with |- context [let '(x, y) := ?X in _] => destruct X as [st2 ex] eqn:EX end.
+    assert (R2 : r_stack st2 = r_stack st).
+    { revert EX.
+      repeat match goal with
+             | |- context [match ?x with _ => _ end] => destruct x
+             | |- context [if ?x then _ else _] => destruct x
+             end; intro H; inversion H; reflexivity. }
+    repeat match goal with
+           | |- context [match ?x with _ => _ end] => destruct x
+           | |- context [if ?x then _ else _] => destruct x
+           end; cbn [fst push r_stack add_errs]; rewrite R2; reflexivity.
+  Qed.
+
+  Lemma fields_enter_stack st n : stack_ok st -> wa_node n -> stack_ok (fst (fields_enter S F st n)).
+  Proof.
+    intros Hst Hn. unfold stack_ok. rewrite fields_enter_stack_eq. constructor; [|exact Hst].
+    destruct n; try exact I. exact Hn.
+  Qed.
+
+  Lemma pop_stack st : stack_ok st -> stack_ok (pop st).
+  Proof. unfold stack_ok, pop. cbn [r_stack]. intro H. destruct (r_stack st); [constructor | inversion H; assumption]. Qed.
+
+  (** ** validateValues *)
+  Lemma coercion_eq q pi S0 from to allow :
+    coercion q pi S0 from to allow =
+    if is_var from then VR []
+    else if is_null from then VR (if is_nonnull to then [err ECoerceNull (v_pos from)] else [])
+    else
+      match to with
+      | StNonNull t => coercion q pi S0 from t allow
+      | StList t =>
+          match from with
+          | VList _ vs _ => items_loop (coercion q pi S0) t vs
+          | _ => if allow then coercion q pi S0 from t true else VR [err ECoerceList (v_pos from)]
+          end
+      | StNamed tn =>
+          match raw_body S0 tn with
+          | Some (TScalar k) => VR (if scalar_accepts k from then [] else [err ECoerceScalar (v_pos from)])
+          | Some (TEnum vals) =>
+              VR (match from with
+                  | VEnum _ x _ => if mem x vals then [] else [err ECoerceEnum (v_pos from)]
+                  | _ => [err ECoerceEnum (v_pos from)]
+                  end)
+          | Some (TInput defs) =>
+              match from with
+              | VObject _ fs p => fields_loop pi (coercion q pi S0) defs p fs [] []
+              | _ => VR [err ECoerceObject (v_pos from)]
+              end
+          | _ => if q_noninput q then VR [sec ECoerceNonInput (v_pos from)] else VPanic
+          end
+      end.
+  Proof. destruct from; destruct to; reflexivity. Qed.
+
+  Lemma items_loop_ext (r1 r2 : value -> sty -> bool -> vres) t vs :
+    Forall (fun x => r1 x t false = r2 x t false) vs -> items_loop r1 t vs = items_loop r2 t vs.
+  Proof.
+    induction 1 as [|x r Hx Hr IH]; [reflexivity|]. cbn [items_loop]. rewrite Hx, IH. reflexivity.
+  Qed.
+
+  Lemma fields_loop_ext pi (r1 r2 : value -> sty -> bool -> vres) defs p fs :
+    (forall n np x def, In (n, np, x) fs -> assoc n defs = Some def -> r1 x (in_type def) true = r2 x (in_type def) true) ->
+    forall seen acc, fields_loop pi r1 defs p fs seen acc = fields_loop pi r2 defs p fs seen acc.
+  Proof.
+    induction fs as [|[[n np] x] r IH]; intros H seen acc; [reflexivity|].
+    cbn [fields_loop]. destruct (assoc n defs) as [def|] eqn:A.
+    - rewrite (H n np x def (or_introl eq_refl) A).
+      destruct (r2 x (in_type def) true) as [[|e l]|]; try reflexivity.
+      apply IH. intros n' np' x' def' Hin A'. apply (H n' np' x' def'); [right; exact Hin | exact A'].
+    - apply IH. intros n' np' x' def' Hin A'. apply (H n' np' x' def'); [right; exact Hin | exact A'].
+  Qed.
+
+  Definition coerces_alike q pi (v : value) : Prop :=
+    forall to allow, vis_sty S F to -> coercion q pi E v to allow = coercion q pi S v to allow.
+
+  Lemma coercion_step q pi v :
+    (forall a vs p, v = VList a vs p -> Forall (coerces_alike q pi) vs) ->
+    (forall a fs p, v = VObject a fs p -> Forall (fun f => coerces_alike q pi (snd f)) fs) ->
+    coerces_alike q pi v.
+  Proof.
+    intros HL HO to. induction to as [tn | t IHt | t IHt]; intros allow V;
+      rewrite (coercion_eq q pi E), (coercion_eq q pi S);
+      (destruct (is_var v); [reflexivity|]); (destruct (is_null v); [reflexivity|]).
+    - unfold vis_sty in V. cbn [unwrapped] in V. rewrite (raw_body_ok tn (or_introl V)).
+      destruct (raw_body S tn) as [[k | vals | defs | fields ifs | fields | ms]|] eqn:RB;
+        cbn [option_map verase_body]; try reflexivity.
+      destruct v; try reflexivity.
+      apply fields_loop_ext. intros n np x def Hin A. specialize (HO _ _ _ eq_refl).
+      rewrite Forall_forall in HO. apply (HO (n, np, x) Hin (in_type def) true).
+      destruct (alive_inv S F tn V) as [d [L R]]. unfold raw_body in RB. rewrite L in RB. inversion RB as [B].
+      apply (input_fields_visible S F Hok tn d defs L R B (n, def)). apply vassoc_In. exact A.
+    - assert (Vt : vis_sty S F t) by exact V.
+      destruct v; try (destruct allow; [apply (IHt true Vt) | reflexivity]).
+      apply items_loop_ext. specialize (HL _ _ _ eq_refl). rewrite Forall_forall in *.
+      intros x Hx. apply (HL x Hx t false Vt).
+    - apply (IHt allow V).
+  Qed.
+
+  Lemma coercion_erase q pi v : coerces_alike q pi v.
+  Proof.
+    induction v using value_ind'; apply coercion_step; intros; try discriminate.
+    - match goal with E0 : _ = _ |- _ => inversion E0; subst end. assumption.
+    - match goal with E0 : _ = _ |- _ => inversion E0; subst end. assumption.
+  Qed.
+
+  Lemma values_enter_erase q pi st n : wa_node n -> values_enter q pi E st n = values_enter q pi S st n.
+  Proof.
+    intro Hn. destruct n; try reflexivity. cbn [wa_node] in Hn. unfold values_enter.
+    destruct (is_var v); [reflexivity|]. destruct (va_expected (v_ann v)) as [t|]; [|reflexivity].
+    rewrite (coercion_erase q pi v t true Hn). reflexivity.
+  Qed.
 End Rules.
